@@ -349,6 +349,7 @@ func c13Pair(c *Ctx, r *rand.Rand, builder func() *network.Network, nIn int, fas
 	}
 	used, usedNet := mk()
 	fresh, freshNet := mk()
+	var lateAfterFlush func()
 	c.Eval(1)
 	detail := func() map[string]interface{} {
 		return map[string]interface{}{"network": desc, "fast_solver": fast, "history": P, "suffix": Q}
@@ -381,10 +382,30 @@ func c13Pair(c *Ctx, r *rand.Rand, builder func() *network.Network, nIn int, fas
 		endedInError = res.Err != ""
 	}
 	changed := !vecBitsEqual(before, used.ReadOutputs())
+	if fast && r.Intn(3) == 0 {
+		// the new instance is a second solver of the same phenotype: the network object the used solver was derived from is asked
+		// for another one, after the history (before or after the flush)
+		late := func() {
+			s2, err2 := usedNet.FastNetworkSolver()
+			if err2 != nil {
+				panic("harness: fast solver construction failed: " + err2.Error())
+			}
+			fresh, freshNet = s2, usedNet
+		}
+		if r.Intn(2) == 0 {
+			late()
+		} else {
+			lateAfterFlush = late
+		}
+		c.Count("pairs.new_instance_is_second_solver_of_the_used_network", 1)
+	}
 	ok, err := used.Flush()
 	if err != nil || !ok {
 		c.Violate("flush-error", detail(), "Flush failed: %v %v", ok, err)
 		return
+	}
+	if lateAfterFlush != nil {
+		lateAfterFlush()
 	}
 	// per-node state must be clean
 	if fast {
